@@ -305,14 +305,22 @@ def normAxes (rank : Nat) : Axis → List Nat
   | .int a => [(a % (rank : Int)).toNat]
   | .tup l => l.map fun (a : Int) => (a % (rank : Int)).toNat
 
-/-- NumPy's own axis validation (`normalize_axis_tuple`), used by `any`/`all`, which do not call
-    `_check_axis`: out of range → AxisError (an IndexError), then duplicates → ValueError -/
+/-- Python `set(axis)`: the distinct members -/
+def pySet : List Nat → List Nat
+  | [] => []
+  | x :: xs => if (pySet xs).contains x then pySet xs else x :: pySet xs
+
+/-- NumPy's own axis validation (`numpy._core.numeric.normalize_axis_tuple`, which is what a reduction
+    applies to its `axis`), used by `any`/`all`, which do not call `_check_axis`:
+    `axis = tuple(normalize_axis_index(ax, ndim) for ax in axis)` raises AxisError (an IndexError) for an
+    entry out of range; then `if len(set(axis)) != len(axis): raise ValueError('repeated axis')`. -/
 def npCheckAxis (rank : Nat) : Axis → Except Err Unit
   | .none => .ok ()
   | .int a => if (pyIndex rank a).isSome then .ok () else .error .index
   | .tup l =>
     if l.all fun a => (pyIndex rank a).isSome then
-      if ((l.map fun (a : Int) => (a % (rank : Int)).toNat).eraseDups).length == l.length then .ok () else .error .value
+      if (pySet (l.map fun (a : Int) => (a % (rank : Int)).toNat)).length == l.length then .ok ()
+      else .error .value
     else .error .index
 
 /-! ### whole arrays: the top-level branches -/
@@ -497,5 +505,56 @@ def allCode (rep : Rep) (a : Arr (Cell Bool)) (axis : Axis) : Except Err (Arr (O
   else match npCheckAxis a.shape.length axis with
     | .error e => .error e
     | .ok () => .ok (a.reduce (allLane rep) (normAxes a.shape.length axis))
+
+/-! ### `builtins=True` : `Qube.as_builtin` (qube.py:2214-2236) applied to the result -/
+
+inductive Builtin (β : Type) where
+  | py (v : β)                    -- a Python bool / int / float
+  | obj (r : Arr (Out β))         -- the object itself
+  | maskedArg                     -- the caller's `masked=` value (None when not given)
+
+/-- `hasUnits`: the units are neither None nor UNITLESS; `maskedGiven`: `masked is not None` -/
+def asBuiltin (hasUnits maskedGiven : Bool) (r : Arr (Out β)) : Builtin β :=
+  if size r.shape == 0 then .maskedArg                          -- np.size(values) == 0: return masked
+  else if r.shape != [] then .obj r                             -- np.shape(values): return self
+  else if (r.get []).2 then (if maskedGiven then .maskedArg else .obj r)   -- self._mask_
+  else if hasUnits then .obj r                                  -- units: return self
+  else .py (r.get []).1
+
+/-- `max`, `min`, `argmax`, `argmin`, `median` return the zero-sized result directly (scalar.py:782-783,
+    852-853, 932-934, 1005-1007, 1171-1172), i.e. BEFORE the `builtins` conversion at the end of the
+    method; `sum`, `mean`, `any`, `all` convert every result. -/
+def builtinsApplies (earlyReturn : Bool) (operandSize : Nat) : Bool := !(earlyReturn && operandSize == 0)
+
+/-- units of a result: the value reductions (sum, mean, max, min, median, sort, maximum, minimum)
+    pass `example=self` / `units=self._units_`; argmax/argmin build a bare `Scalar(indices)` and
+    any/all a Boolean -/
+inductive OpKind where
+  | value | index | bool
+  deriving DecidableEq, Repr
+
+def resultUnits {U : Type} (k : OpKind) (u : Option U) : Option U :=
+  match k with
+  | .value => u
+  | _ => none
+
+/-! ### `Scalar.maximum/minimum` on operands of different shapes: `Qube.broadcast` (qube.py:4764-4817) -/
+
+/-- `Qube.broadcasted_shape`: the shapes folded with NumPy's rule; `none` = ValueError -/
+def bcastAll : List Shape → Option Shape
+  | [] => some []
+  | s :: ss => (bcastAll ss).bind fun r => bcast s r
+
+/-- scalar.py:1057-1097: no arguments ⇒ ValueError; incompatible shapes ⇒ ValueError (from
+    `Qube.broadcast`); otherwise every operand is broadcast to the common shape and the loop
+    runs element by element -/
+def maximumArr (step : List (Cell Int) → Option (Cell Int)) (args : List (Arr (Cell Int))) :
+    Except Err (Arr (Cell Int)) :=
+  match args with
+  | [] => .error .value
+  | _ =>
+    match bcastAll (args.map (·.shape)) with
+    | none => .error .value
+    | some out => .ok ⟨out, fun i => (step (args.map fun a => (a.bto out).get i)).getD ⟨0, true⟩⟩
 
 end PMV.Reduce
